@@ -9,7 +9,8 @@ order; `render997` / `render999` give the text.  A Python exception inside the v
 the truncated `out`.
 
 `cfg.legacy = true` mirrors the unchanged code; `false` the code after the three proposed repairs (GS08 of the 997,
-total ST/SE element-position lookup, AK203 omitted when ST03 is absent).  `list(set(…))` iteration order (hash
+total ST/SE element-position lookup, AK203 omitted when ST03 is absent).  The fourth repair — AK402 / IK402 written only when
+`ele_ref_num` is a string of ASCII digits (`asciiDigits`) — is modelled for both settings.  `list(set(…))` iteration order (hash
 dependent in Python) is modelled as sorted order; the correspondence compares those runs as multisets.
 -/
 import Pyx12Verif.Model.ErrTree
@@ -76,6 +77,14 @@ def pyStr : Option Str → Str
 /-- Python truthiness of an optional string -/
 def truthy : Option Str → Bool
   | some s => !s.isEmpty
+  | none => false
+
+/-- one ASCII decimal digit `0`–`9` -/
+def isAsciiDigit (c : Char) : Bool := decide (48 ≤ c.toNat) && decide (c.toNat ≤ 57)
+
+/-- `x and x.isascii() and x.isdigit()` for an optional string: not `None`, not `''`, ASCII decimal digits only -/
+def asciiDigits : Option Str → Bool
+  | some s => !s.isEmpty && s.all isAsciiDigit
   | none => false
 
 /-- `needle in hay` for strings -/
@@ -324,7 +333,10 @@ def getIsaErrors997 (a : Isa) : Except ASite (List Str) :=
 def getIsaErrors999 (a : Isa) : Except ASite (List Str) :=
   (isaElesCodes a.elements).map (fun l => sortU (a.errors ++ l))
 
-/-! ### segment- and element-level lines (`visit_seg`, `visit_ele`) -/
+/-! ### segment- and element-level lines (`visit_seg`, `visit_ele`)
+
+AK402 / IK402 (`ele_ref_num`) is written only when it is a non-empty string of ASCII digits (the element is numeric, N0;
+for an error on a composite node `ele_ref_num` is the composite's id, e.g. `C022`). -/
 
 def segCodes (s : Seg) : List Str := s.errors.map (fun x => x.code)
 
@@ -360,12 +372,12 @@ def subVal : Option Nat → Nat
 def eleBase997 (e : Ele) : Str :=
   ((if subTruthy e.subpos then (bare sAK4).append (natStr e.pos ++ ':' :: natStr (subVal e.subpos))
     else (bare sAK4).append (natStr e.pos)) |>
-   (fun b => if truthy e.refNum then b.append (pyStr e.refNum) else b)).format
+   (fun b => if asciiDigits e.refNum then b.append (pyStr e.refNum) else b)).format
 
 def eleBase999 (e : Ele) : Str :=
   (((bare sIK4).setSub 0 0 (natStr e.pos)) |>
    (fun b => if subTruthy e.subpos then b.setSub 0 1 (natStr (subVal e.subpos)) else b) |>
-   (fun b => if truthy e.refNum then b.setEle 1 (pyStr e.refNum) else b)).format
+   (fun b => if asciiDigits e.refNum then b.setEle 1 (pyStr e.refNum) else b)).format
 
 def eleErrLine (base : Str) (x : EleErr) : PSeg :=
   if truthy x.value then ((mkSeg base).setEle 2 x.code).setEle 3 (pyStr x.value) else (mkSeg base).setEle 2 x.code
